@@ -526,17 +526,17 @@ theorem lexAll_append (s : LexState) (a b : List Tok) :
     | ok s' => exact ih s'
 
 /-- a whitespace token (that is not made of closing braces) -/
-def isWs (t : Tok) : Bool := t.typ == TT.whitespace && !isCloser t.value
+def isWsTok (t : Tok) : Bool := t.typ == TT.whitespace && !isCloser t.value
 
 /-- whitespace tokens may be inserted anywhere, also inside tags -/
 theorem lexAll_filter_ws (s : LexState) (toks : List Tok) :
-    lexAll s toks = lexAll s (toks.filter (fun t => !isWs t)) := by
+    lexAll s toks = lexAll s (toks.filter (fun t => !isWsTok t)) := by
   induction toks generalizing s with
   | nil => rfl
   | cons t ts ih =>
-    by_cases h : isWs t = true
+    by_cases h : isWsTok t = true
     · have h' := h
-      simp only [isWs, Bool.and_eq_true, beq_iff_eq, Bool.not_eq_true'] at h'
+      simp only [isWsTok, Bool.and_eq_true, beq_iff_eq, Bool.not_eq_true'] at h'
       simp only [lexAll, lexStep_whitespace s t h'.1 h'.2, List.filter_cons, h, Bool.not_true]
       exact ih s
     · simp only [Bool.not_eq_true] at h
